@@ -90,4 +90,107 @@ example : split '/' "metadata/annotations/a\\/b\\/c" = ["metadata", "annotations
           smarter '.' "spec.containers.[name=a.b].image" = ["spec", "containers", "[name=a.b]", "image"] ∧
           split '/' "/a/b" = ["a", "b"] := by decide
 
+
+/-- escape every delimiter of an element -/
+def esc (d : Char) : List Char → List Char
+  | [] => []
+  | c :: cs => if c = d then '\\' :: d :: esc d cs else c :: esc d cs
+
+/-- scanning an escaped element never closes a piece: it just appends the element to the open piece, provided no
+    backslash of the element sits right before one of its own delimiters being… (handled by the general statement:
+    the open piece after the element is `e.reverse ++ cur`) -/
+theorem scan_esc (d : Char) (hd : d ≠ '\\') : ∀ (e cur rest : List Char),
+    scan d (esc d e ++ rest) cur = scan d rest (e.reverse ++ cur) := by
+  intro e
+  induction e with
+  | nil => intro cur rest; simp [esc]
+  | cons c cs ih =>
+    intro cur rest
+    by_cases hc : c = d
+    · subst hc
+      have h1 : esc c (c :: cs) = '\\' :: c :: esc c cs := by simp [esc]
+      rw [h1]
+      have hb : ('\\' : Char) ≠ c := fun e => hd e.symm
+      simp only [List.cons_append, scan, hb, if_false, if_true]
+      rw [ih]
+      simp
+    · have h1 : esc d (c :: cs) = c :: esc d cs := by simp [esc, hc]
+      rw [h1]
+      simp only [List.cons_append, scan, hc, if_false]
+      rw [ih]
+      simp
+
+/-- joining escaped elements with the delimiter -/
+def joinEsc (d : Char) : List (List Char) → List Char
+  | [] => []
+  | [e] => esc d e
+  | e :: f :: r => esc d e ++ d :: joinEsc d (f :: r)
+
+/-- **escaping is the inverse of splitting** (character level): a list of elements, none of which ends in a backslash,
+    written with its delimiters escaped and joined by the delimiter, scans back into exactly these elements — however
+    many delimiters an element contains. -/
+theorem scan_joinEsc (d : Char) (hd : d ≠ '\\') : ∀ (es : List (List Char)), es ≠ [] →
+    (∀ e ∈ es, e.getLast? ≠ some '\\') → scan d (joinEsc d es) [] = es := by
+  intro es
+  induction es with
+  | nil => intro h; exact absurd rfl h
+  | cons e r ih =>
+    intro _ hall
+    cases r with
+    | nil =>
+      have := scan_esc d hd e [] []
+      simp at this
+      simp [joinEsc, this, scan]
+    | cons f r' =>
+      have hj : joinEsc d (e :: f :: r') = esc d e ++ d :: joinEsc d (f :: r') := by simp [joinEsc]
+      rw [hj, scan_esc d hd e [] (d :: joinEsc d (f :: r'))]
+      simp only [List.append_nil, scan, if_true]
+      have hlast : e.getLast? ≠ some '\\' := hall e (by simp)
+      have hne : ∀ cur', e.reverse ≠ '\\' :: cur' := by
+        intro cur' he
+        apply hlast
+        have : e = (('\\' : Char) :: cur').reverse := by rw [← he]; simp
+        rw [this]; simp
+      split
+      · rename_i cur' heq; exact absurd heq (hne cur')
+      · rw [ih (by simp) (fun x hx => hall x (by simp [hx]))]
+        simp
+
+/-- an element with three delimiters survives the round trip as ONE element -/
+example : scan '/' (joinEsc '/' ["metadata".toList, "a/b/c/d".toList, "x".toList]) []
+    = ["metadata".toList, "a/b/c/d".toList, "x".toList] := by decide
+
+
+/-- **a key with any number of delimiters is addressable**: elements written with their delimiters escaped and joined
+    by the delimiter are split back into exactly these elements (first element non-empty, none ending in a backslash) -/
+theorem splitScan_joinEsc (d : Char) (hd : d ≠ '\\') (es : List (List Char)) (hne : es ≠ [])
+    (hall : ∀ e ∈ es, e.getLast? ≠ some '\\') (hfirst : ∀ e, es.head? = some e → e ≠ []) :
+    splitScan d (String.ofList (joinEsc d es)) = es.map String.ofList := by
+  unfold splitScan
+  simp only [String.toList_ofList]
+  have hstart : ∀ r, joinEsc d es ≠ d :: r := by
+    intro r
+    cases es with
+    | nil => exact absurd rfl hne
+    | cons e rest =>
+      have he := hfirst e rfl
+      cases e with
+      | nil => exact absurd rfl he
+      | cons c cs =>
+        have hesc : ∃ x tl, esc d (c :: cs) = x :: tl ∧ x ≠ d := by
+          by_cases hc : c = d
+          · exact ⟨'\\', d :: esc d cs, by simp [esc, hc], fun e => hd e.symm⟩
+          · exact ⟨c, esc d cs, by simp [esc, hc], hc⟩
+        obtain ⟨x, tl, e1, e2⟩ := hesc
+        cases rest with
+        | nil => simp [joinEsc, e1]; intro h; exact absurd h e2
+        | cons f r' => simp [joinEsc, e1]; intro h; exact absurd h e2
+  have : skipLead d (joinEsc d es) = joinEsc d es := by
+    cases hj : joinEsc d es with
+    | nil => rfl
+    | cons c r =>
+      have : c ≠ d := fun e => hstart r (by rw [hj, e])
+      simp [skipLead, this]
+  rw [this, scan_joinEsc d hd es hne hall]
+
 end Kust.C14
